@@ -165,3 +165,22 @@ Section BufferReaders.
     induction i as [|i IH]; intros [|x xs]; cbn; try reflexivity. apply IH.
   Qed.
 End BufferReaders.
+
+(* ---- BufferWriter / PedanticBufferWriter / ConstexprBufferWriter: Prepare ------------------------------------ *)
+(* The capacity check every serialization is predicated on (Serializer::Write calls Prepare(GetSize) first), as the
+   three headers spell it today, is the model's w_prepare: size_ is bw_cap, index_ the number of bytes written. *)
+Section BufferWriters.
+  Definition bw_state (w : bufw) : Bounded bufw := (w, bw_cap w, bw_idx w).
+  Definition bw_back {A} (m : res A (Bounded bufw)) : res A bufw :=
+    match m with Ok a b => Ok a (b_inner b) | Err e b => Err e (b_inner b) end.
+  Definition nocallw {A} : N -> bufw -> res A bufw := fun _ x => Err 0 x.
+
+  Lemma writer_prepare_agrees s checked n w :
+    s = gen_BufferWriter_Prepare \/ s = gen_PedanticBufferWriter_Prepare \/ s = gen_ConstexprBufferWriter_Prepare ->
+    bw_back (exec nocallw (fun _ _ _ => tt) tt [n] s (bw_state w)) = w_prepare (bufw_ops checked) n w.
+  Proof.
+    intros [-> | [-> | ->]]; unfold exec, bw_state, bw_back;
+      cbv [run test eval nth app gen_BufferWriter_Prepare gen_PedanticBufferWriter_Prepare gen_ConstexprBufferWriter_Prepare];
+      cbn [w_prepare bufw_ops b_size b_index b_inner fst snd]; cases.
+  Qed.
+End BufferWriters.
